@@ -260,10 +260,17 @@ type armPath struct {
 	sets    map[string]string // local name -> constant assigned ("true"/"false"/"?")
 	appends int               // append(args, current.String())
 	resets  int
+	conds   []pathCond // branch conditions taken on this path
+	curIs   string     // what the current-rune variable holds after a reassignment ("" = the current rune)
+}
+
+type pathCond struct {
+	e   ast.Expr
+	val bool
 }
 
 func clonePath(a armPath) armPath {
-	b := armPath{writes: append([]string(nil), a.writes...), skips: a.skips, sets: map[string]string{}, appends: a.appends, resets: a.resets}
+	b := armPath{writes: append([]string(nil), a.writes...), skips: a.skips, sets: map[string]string{}, appends: a.appends, resets: a.resets, conds: append([]pathCond(nil), a.conds...), curIs: a.curIs}
 	for k, v := range a.sets {
 		b.sets[k] = v
 	}
@@ -281,8 +288,11 @@ func enumPaths(info *types.Info, stmts []ast.Stmt, start []armPath, classify fun
 			}
 			var thenStart, elseStart []armPath
 			for _, p := range paths {
-				thenStart = append(thenStart, clonePath(p))
-				elseStart = append(elseStart, clonePath(p))
+				tp, ep := clonePath(p), clonePath(p)
+				tp.conds = append(tp.conds, pathCond{s.Cond, true})
+				ep.conds = append(ep.conds, pathCond{s.Cond, false})
+				thenStart = append(thenStart, tp)
+				elseStart = append(elseStart, ep)
 			}
 			th := enumPaths(info, s.Body.List, thenStart, classify, idx, ok)
 			var el []armPath
@@ -315,7 +325,11 @@ func enumPaths(info *types.Info, stmts []ast.Stmt, start []armPath, classify fun
 			switch {
 			case f != nil && (qualName(f) == "strings.Builder.WriteRune" || qualName(f) == "strings.Builder.WriteByte" || qualName(f) == "strings.Builder.WriteString") && len(call.Args) == 1:
 				for i := range paths {
-					paths[i].writes = append(paths[i].writes, classify(call.Args[0]))
+					k := classify(call.Args[0])
+					if k == "cur" && paths[i].curIs != "" {
+						k = paths[i].curIs
+					}
+					paths[i].writes = append(paths[i].writes, k)
 				}
 			case f != nil && qualName(f) == "strings.Builder.Reset":
 				for i := range paths {
@@ -336,6 +350,13 @@ func enumPaths(info *types.Info, stmts []ast.Stmt, start []armPath, classify fun
 					continue
 				}
 				val := "?"
+				if len(s.Rhs) == len(s.Lhs) && classify(l) == "cur" && s.Tok == token.ASSIGN {
+					k := classify(s.Rhs[i])
+					for j := range paths {
+						paths[j].curIs = k
+					}
+					continue
+				}
 				if len(s.Rhs) == len(s.Lhs) {
 					if tv, has := info.Types[s.Rhs[i]]; has && tv.Value != nil {
 						val = tv.Value.ExactString()
@@ -532,6 +553,31 @@ func checkParseArms(c *Ctx, p *packages.Package, fd *ast.FuncDecl, inQ types.Obj
 					why = append(why, "a path that skips the following character writes "+pt.writes[0]+": the skipped character is dropped")
 				case pt.skips > 1:
 					why = append(why, "a path skips more than one character")
+				}
+				if pt.skips > 0 {
+					// unescaping happens inside double quotes only: in single quotes a backslash is an ordinary character
+					dq := false
+					isDQ := func(e ast.Expr) bool {
+						x, y, op, ok := binCmp(e)
+						if !ok || op != token.EQL {
+							return false
+						}
+						id, isId := ast.Unparen(x).(*ast.Ident)
+						v, isC := constInt(info, y)
+						return isId && id.Name == "quoteChar" && isC && v == '"'
+					}
+					all := append([]pathCond(nil), pt.conds...)
+					for _, e := range cc.List {
+						all = append(all, pathCond{e, true})
+					}
+					for _, pc := range all {
+						if gv, _, ok := condImplies(pc.e, pc.val, isDQ); ok && gv {
+							dq = true
+						}
+					}
+					if !dq {
+						why = append(why, "a path that unescapes (skips a character) is not limited to double quotes: inside single quotes a backslash must stay an ordinary character")
+					}
 				}
 				inQv, _, inQok := false, ast.Expr(nil), false
 				if len(cc.List) == 1 {
@@ -912,7 +958,7 @@ func checkSinglePass(c *Ctx, w *World) {
 			if n == 0 {
 				c.Undecided("R17.5", "xtool/env.expandEnvWithCmd os.Expand", fd.Pos(), "no os.Expand call found")
 			}
-			// the whole input is covered: the pieces between subcommands and the tail are expanded -> at least 2 calls when a loop is used
+			checkConfigFlag(c, p, fd)
 			// subcommand output is taken only from a successful run
 			okErr := false
 			ast.Inspect(fd.Body, func(nd ast.Node) bool {
@@ -1017,6 +1063,76 @@ func checkSinglePass(c *Ctx, w *World) {
 		}
 	}
 	c.Exists("R17.5", "map ranges scanned for chained replacement", 0, fmt.Sprintf("%d range-over-map loops in the loaded packages", n))
+}
+
+// checkConfigFlag: the flag that makes ExpandEnvToArgs split the result as pkg-config output must be set on every
+// path of the subcommand closure that yields command output (any return of a non-constant string).
+func checkConfigFlag(c *Ctx, p *packages.Package, fd *ast.FuncDecl) {
+	info := p.TypesInfo
+	var flag types.Object
+	if fd.Type.Results != nil && len(fd.Type.Results.List) == 2 {
+		// the second result is returned from a local: find "return ..., <ident>"
+		ast.Inspect(fd.Body, func(n ast.Node) bool {
+			if _, isLit := n.(*ast.FuncLit); isLit {
+				return false
+			}
+			if r, ok := n.(*ast.ReturnStmt); ok && len(r.Results) == 2 {
+				if id, ok := ast.Unparen(r.Results[1]).(*ast.Ident); ok {
+					flag = info.Uses[id]
+				}
+			}
+			return true
+		})
+	}
+	if flag == nil {
+		c.Undecided("R17.5", "xtool/env.expandEnvWithCmd split flag", fd.Pos(), "the boolean result is not returned from a local variable")
+		return
+	}
+	n := 0
+	ast.Inspect(fd.Body, func(nd ast.Node) bool {
+		lit, ok := nd.(*ast.FuncLit)
+		if !ok {
+			return true
+		}
+		// only closures that run a command
+		if !containsCallTo(info, lit.Body, "os/exec.Command") && !containsCallTo(info, lit.Body, "os/exec.Cmd.Output") {
+			return true
+		}
+		g := buildLitCFG(p, lit)
+		isSet := func(x ast.Node) bool {
+			as, ok := x.(*ast.AssignStmt)
+			if !ok || len(as.Lhs) != 1 || len(as.Rhs) != 1 {
+				return false
+			}
+			id, ok := ast.Unparen(as.Lhs[0]).(*ast.Ident)
+			if !ok || info.Uses[id] != flag {
+				return false
+			}
+			tv, has := info.Types[as.Rhs[0]]
+			return has && tv.Value != nil && tv.Value.ExactString() == "true"
+		}
+		ast.Inspect(lit.Body, func(m ast.Node) bool {
+			if inner, ok := m.(*ast.FuncLit); ok && inner != lit {
+				return false
+			}
+			r, ok := m.(*ast.ReturnStmt)
+			if !ok || len(r.Results) != 1 {
+				return true
+			}
+			if _, isC := constString(info, r.Results[0]); isC {
+				return true // nothing substituted
+			}
+			n++
+			dom, found := g.dominatedBy(r, isSet, nil)
+			c.Check(found && dom, "R17.5", fmt.Sprintf("xtool/env.expandEnvWithCmd output return #%d sets the split flag", n), r.Pos(), "config = true on every path to the return",
+				"a path returns command output without marking the result as pkg-config output: ExpandEnvToArgs hands the whole flag list on as ONE argument instead of splitting it")
+			return true
+		})
+		return true
+	})
+	if n == 0 {
+		c.Undecided("R17.5", "xtool/env.expandEnvWithCmd split flag", fd.Pos(), "no closure returning command output found")
+	}
 }
 
 // ---------------------------------------------------------------------------
@@ -1166,6 +1282,10 @@ func checkSafeSplit(c *Ctx, p *packages.Package) {
 }
 
 func init() {
+	addMutant(Mutant{Prop: "C17", Name: "parse-single-quote-unescapes", File: "internal/shellparse/shellparse.go",
+		Old: "\t\t\tif quoteChar == '\"' {\n\t\t\t\tnext := runes[i+1]", New: "\t\t\tif quoteChar != 0 {\n\t\t\t\tnext := runes[i+1]", Expect: "R17.2 shellparse.Parse arm content"})
+	addMutant(Mutant{Prop: "C17", Name: "expand-config-after-early-return", File: "xtool/env/env.go",
+		Old: "\t\tconfig = true\n\n\t\tvar out []byte", New: "\t\tif v := os.Getenv(\"LLGO_CFG_\" + cmd); v != \"\" {\n\t\t\treturn v\n\t\t}\n\t\tconfig = true\n\n\t\tvar out []byte", Expect: "R17.5 xtool/env.expandEnvWithCmd output return"})
 	addMutant(Mutant{Prop: "C17", Name: "parse-no-unterminated-error", File: "internal/shellparse/shellparse.go",
 		Old: "\tif inQuotes {\n\t\treturn nil, fmt.Errorf(\"unterminated quote in command: %s\", cmd)\n\t}\n", New: "\t_ = fmt.Sprint\n", Expect: "R17.1"})
 	addMutant(Mutant{Prop: "C17", Name: "parse-unterminated-after-flush", File: "internal/shellparse/shellparse.go",
